@@ -126,6 +126,7 @@ class BiWordFilter(Filter):
         prev_startchar = None
         prev_pos = None
         atleastone = False
+        token = None
 
         for token in tokens:
             # Save the original text of this token
@@ -163,7 +164,7 @@ class BiWordFilter(Filter):
 
         # If no bi-words were emitted, that is, the token stream only had
         # a single token, then emit that single token.
-        if not atleastone:
+        if not atleastone and token is not None:
             yield token
 
 
